@@ -661,6 +661,9 @@ func GenHelpCase(t *rapid.T) *HelpCase {
 			s.Aliases = append(s.Aliases, fmt.Sprintf("qcmd%dz", wc))
 		}
 		s.Desc = word()
+		if chance(t, 1, 3, "multilinesubdesc") {
+			s.Desc = word() + "\n" + word() // every line of a sub command's description belongs to its row
+		}
 		s.Long = word()
 		s.Hidden = chance(t, 1, 3, "hidden")
 		c.Subs = append(c.Subs, s)
